@@ -1,8 +1,9 @@
-\* C16 edge emission: every Regenerate transition of the session model with HasChanged as coded.
+\* C16 edge emission: every Regenerate transition of the session model with HasChanged as coded after 4de87af (code hash).
 CONSTANTS
   MaxItems = 2
   Choices <- ChoicesFull
-  ChangeRule = "coded"
+  ChangeRule = "codehash"
+  TextHashRule = "joined"
   MaxEdits = 3
   EmitEdges = TRUE
 INIT Init
